@@ -15,7 +15,9 @@ class Registry:
         self.by_func = {}
         for c in contracts:
             self.by_func[c.target] = _CallContract(c)
-        self.loops = {}
+        from . import api
+
+        self.loops = dict(api.LOOPS)
         self.verifying = set()
         for c in contracts:
             for (qual, ordinal), spec in getattr(c, "loops", {}).items():
